@@ -26,10 +26,13 @@ Cfg(i) == LET j == Traces[i].cfg IN
           [retry |-> j.retry,
            rc |-> [j.rc EXCEPT !.strat = ToSet(j.rc.strat), !.legacy = ToSet(j.rc.legacy),
                                !.adaptive = ToSet(j.rc.adaptive)],
-           bc |-> [j.bc EXCEPT !.trip = ToSet(j.bc.trip)]]
+           bc |-> [j.bc EXCEPT !.trip = ToSet(j.bc.trip)],
+           \* direct breaker operations: whatever the trace holds at this position
+           ext |-> {}, next |-> 1000000]
 
 Cur == Traces[tid].ev[l]
 Is(kind) == l <= Len(Traces[tid].ev) /\ Cur.e = kind
+CfgAt(i) == [Cfg(i) EXCEPT !.ext = IF Is("ext") THEN {[op |-> Cur.op, k |-> Cur.k]} ELSE {}]
 NStart(i) == Cardinality({x \in 1..Len(Traces[i].ev) : Traces[i].ev[x].e = "pstart"})
 
 PC == INSTANCE PolicyCall WITH
@@ -45,7 +48,7 @@ PC == INSTANCE PolicyCall WITH
         Ras   <- {},
         Modes <- IF Is("pstart") THEN {Cur.mode} ELSE {},
         NCalls <- NStart(tid),
-        Gaps  <- IF Is("pstart") /\ Cur.at >= p.now THEN {Cur.at - p.now} ELSE {}
+        Gaps  <- IF (Is("pstart") \/ Is("ext")) /\ Cur.at >= p.now THEN {Cur.at - p.now} ELSE {}
 
 Init == /\ tid \in 1..NTraces
         /\ l = 1
@@ -55,7 +58,7 @@ Init == /\ tid \in 1..NTraces
 
 Step ==
     /\ l <= Len(Traces[tid].ev)
-    /\ LET c  == Cfg(tid)
+    /\ LET c  == CfgAt(tid)
            e  == Cur
            xs == IF conf = 0 THEN {x \in PC!PStep(c, p) : x[1] = e} ELSE {}
        IN  /\ pm' = PM!PMonStep(c, pm, e)
